@@ -110,6 +110,31 @@ CHECKS["C02"] = dict(
     technique="Lean 4 proof of the column-resolution layer + differential correspondence of complete column path sets on Lean-rendered SQL",
 )
 
+CHECKS["C08"] = dict(
+    category="proof",
+    text="Lean definition of consistent renaming with standard scoping over the typed AST (Model/Rename.lean: CTE names, table and "
+         "derived-table aliases, add / drop alias, toggle AS — the same engine the check applies through the driver) and theorems for "
+         "ALL statements (mutual structural recursion, no size bound): under a fresh injective renaming the tables read and written "
+         "by the specification are unchanged (spec_alpha_tables: CTE scoping commutes with renaming, base tables are never "
+         "captured), likewise for add/drop alias and AS; the deviation classes / Frag01 are invariant (frag_alpha, with the "
+         "necessary D5 hypothesis witnessed); tables by the walk follow from C01's pending exactness theorem (walk_alpha_tables, "
+         "hypothesis explicit); the walk's leaves ignore the AS flag; witnesses that the code as found violates the property when "
+         "an alias (written or default) equals another table's bare name (dev_D7, dev_D7_default, dev_D7_analysis) and that the "
+         "repaired alias map does not (fixed_D7, explicit_alias_wins for all holders). The column half (end-to-end pairs) has no "
+         "Lean theorem yet; it rests on the metamorphic differential: every generated statement x 3 (quick) / 10 (thorough) "
+         "operations from an adversarial pool (fresh, mixed case, column names, keywords, own and other tables' bare names, "
+         "add/drop alias, AS) x dialects, real LineageRunner on the original and on the Lean-renamed text, tables and end-to-end "
+         "pairs compared, and the model's verdict on the same pair compared with the implementation's",
+    design_ref="DESIGN.md §5 C08, §6 D7, Appendix B",
+    note=TB + ". partial: no Lean specification of column dataflow yet, so invariance of the end-to-end column pairs is established by "
+         "the implementation-vs-implementation differential only; text -> sqlfluff tree is not modelled (a dialect that rejects the "
+         "renamed text rejects the case; keyword-as-alias re-readings are told apart by parse-tree shape); the hash-order class of an "
+         "unqualified * is tolerated as in C02. Known findings D7 (fix offered: fixes/D7-*.patch + patches/D7-model.patch) and "
+         "D2-alias-capture (select-item subquery path).",
+    technique="Lean 4 proof (alpha-invariance of the table specification and of the fragment, by mutual structural recursion) + "
+              "metamorphic differential correspondence with the renaming computed by the Lean engine",
+)
+
 NOT_YET = "machinery not built yet (build phase in progress, see DESIGN.md §9)"
 
 
